@@ -78,7 +78,10 @@ void h_custom(long worker, long workers, long seed, std::map<std::string, std::s
 		o.exhaustive = true;
 		return;
 	}
-	for (uint64_t s = lo; s < hi; s++)
+	uint32_t dummy[2], *cur = engine_custom_case ? engine_custom_case(2, nullptr) : dummy; // h_run: weighted -> 0, then s-1
+	cur[0] = 0;
+	for (uint64_t s = lo; s < hi; s++) {
+		cur[1] = (uint32_t)(s - 1);
 		if (const char *m = check((uint32_t)s, buf, sizeof buf)) {
 			o.failed = true;
 			o.failmsg = m;
@@ -86,6 +89,7 @@ void h_custom(long worker, long workers, long seed, std::map<std::string, std::s
 			o.fail_tape = { 0, (uint32_t)(s - 1) };
 			break;
 		}
+	}
 	o.evaluations = hi - lo;
 	o.nontrivial = o.distinct = hi - lo;
 	o.classes["states checked against 64-bit reference"] = hi - lo;
